@@ -4,7 +4,9 @@ from ._write_common import run_common
 
 def run(ctx):
     q = ctx.tier == "quick"
-    run_common(ctx, "C07", ["SfProps.C07", "SfProps.C07Block"], stride=2 if q else 1, l1_scripts=250 if q else 2500)
+    run_common(ctx, "C07", ["SfProps.C07", "SfProps.C07Block", "SfProps.C01Dwvw"], stride=2 if q else 1, l1_scripts=250 if q else 2500)
     if not getattr(ctx, "replay", None):
         from .. import blockcamp
         blockcamp.run(ctx, "C07", 160 if q else 1600)
+        from .. import dwvw
+        dwvw.run(ctx, "C07", 120 if q else 1200)
